@@ -841,6 +841,9 @@ fn export_histories(acc: &mut Acc, grow: u32) {
     for g in [2000u32, grow] {
         cases.push((format!("{g} inserts expiring at 10, then 5 inserts at time 10"), 8, g, false, 5, 10));
         cases.push((format!("{g} inserts, clear, then 2 inserts"), 8, g, true, 2, 10));
+        // refill past the old size after the clear (the free list is large now, so is the next growth step)
+        cases.push((format!("{g} inserts, clear, then {} inserts", 2 * g + 10), 8, g, true, 2 * g + 10, 10));
+        cases.push((format!("hint {} then {} inserts", g + 1, 2 * g + 3), g as usize + 1, 0, false, 2 * g + 3, 10));
     }
     for (k, (label, hint, g, clr, n2, tq)) in cases.iter().enumerate() {
         for subject in 0..2u32 {
@@ -1067,6 +1070,12 @@ fn gcd(a: u32, b: u32) -> u32 {
 }
 
 fn big_checkpoint<S: BigSub>(t: &S, model: &BTreeMap<u32, u32>, hint: usize, peak: usize, what: &str) -> Result<(), (String, String)> {
+    // heartbeat for the watchdog: a long history is many operations, not one
+    let cur = rt::my_history();
+    rt::hist_reset();
+    if let Some(c) = cur.first() {
+        rt::hist_push(*c);
+    }
     if t.empty() != model.is_empty() {
         return Err(("is_empty".into(), format!("{what}: is_empty() = {} with {} keys stored", t.empty(), model.len())));
     }
@@ -1124,7 +1133,7 @@ fn big_history<S: BigSub>(hint: usize, n: u32, order: u32, keep_pct: u32, acc: &
             t.ins(k * 2, val(k * 2));
             model.insert(k * 2, val(k * 2));
             peak = peak.max(model.len());
-            if j % 997 == 996 {
+            if j % (n as usize / 12).max(997) == 996 {
                 big_checkpoint(&t, &model, hint, peak, "while filling")?;
             }
         }
@@ -1153,7 +1162,7 @@ fn big_history<S: BigSub>(hint: usize, n: u32, order: u32, keep_pct: u32, acc: &
         for (j, k) in big_perm(2 * n, 2).into_iter().enumerate() {
             t.del(k);
             model.remove(&k);
-            if j % 1999 == 1998 {
+            if j % (n as usize / 6).max(1999) == 1998 {
                 big_checkpoint(&t, &model, hint, peak, "while draining")?;
             }
         }
